@@ -64,6 +64,51 @@ FUNCTIONS = [
     "autoarray.inversion.inversion.imaging.inversion_imaging_util.curvature_matrix_off_diags_via_w_tilde_curvature_preload_imaging_from",
     "autoarray.inversion.inversion.imaging.inversion_imaging_util.curvature_matrix_off_diags_via_mapper_and_linear_func_curvature_vector_from",
 ]
+BOUNDS = {
+    "quick": "SYMBOLIC: the data value of every unmasked pixel (unbounded reals; box |d|<=16 only in the check_reconstruction cases); "
+             "in the noise-symbolic cases additionally 3 noise-map values in [1/4, 8]. ENUMERATED: geometry sq3 (5x5 frame, central 3x3 "
+             "unmasked, asymmetric non-negative dyadic 3x3 PSF, non-uniform dyadic noise, sub-size 1); linear-object mixes [mapper], "
+             "[function list, mapper], [mapper, function list], [mapper, mapper] (3x3 / 2x2 rectangular meshes, Constant and "
+             "ConstantZeroth regularization, 2-parameter MockLinearObjFuncList); both formalisms (settings.use_w_tilde True/False); all "
+             "2^5 subsets of the slots {w_tilde, curvature_matrix, regularization_matrix, log_det_regularization_matrix_term, "
+             "operated_mapping_matrix} taken from a separately built identical inversion; 8 subsets of the five further slots "
+             "(data_vector_mapper, curvature_matrix_mapper_diag, mapper_operated_mapping_matrix_dict, linear_func_operated_mapping_matrix_dict, "
+             "data_linear_func_matrix_dict); sequences of k=2 inversions sharing one Preloads object; factory: settings.use_w_tilde x "
+             "preloads.use_w_tilde in {None,True,False} x preloads.w_tilde present/absent, and preloads=None; positive-negative solver",
+    "thorough": "as quick plus geometry 'plus' (6x6 frame, 7 unmasked pixels, sub-size 2 with fractional mapping weights, 2x3 / 3x2 meshes), "
+                "mixes [function list] and [function list, mapper, mapper], k=3, all 31 non-empty subsets of the five further slots and "
+                "all ten slots together, slot values donated by an identical inversion of the other formalism, factory cases with the "
+                "degenerate-solution test switched on",
+}
+OUTSIDE = [
+    "positive-only solver (fnnls; use_positive_only_solver=False throughout - C05 covers the solver)",
+    "interferometer inversions, Delaunay/Voronoi mappers, adaptive regularization, noise covariance matrices",
+    "signed PSFs and non-square kernels (C04's recorded w-tilde defects live there); frames other than the two listed; more than 3 linear objects",
+    "preload values that were NOT computed from an identical dataset / identical linear objects (the property's precondition), incl. the "
+    "w-tilde noise-map consistency check firing",
+    "inputs whose degenerate-solution test (np.allclose on the reconstruction) lies within a factor 2 of its tolerance (decision margin); "
+    "the test is switched off (config check_reconstruction=False) in all but the dedicated cases",
+    "in the noise-symbolic cases log_det_curvature_reg_matrix_term (Cholesky of a symbolic matrix) is not observed and the linear solve is an uninterpreted function",
+    "slot curvature_matrix_mapper_diag donated by a MAPPING-formalism inversion of [mapper, function list]: the donor itself raises IndexError (see notes), slot left empty",
+    "float64 rounding: all concrete constants are dyadic so that both formalisms are exact in float64; replay tolerance 1e-7",
+]
+STUBS = [
+    "np.linalg.solve(A, b), A concrete, b symbolic: LAPACK solve for the identity, the concrete inverse (exact rationals of its float64 "
+    "entries) times b. Contract: the routine is linear in its right-hand side.",
+    "np.linalg.solve(A, b), A symbolic (noise-symbolic cases only): component i = uninterpreted function solve_i(entries of A, entries of b). "
+    "Contract: the routine is a function of its arguments (nothing else). Outputs derived from it are excluded from the per-path "
+    "encoding validation, counterexamples are still replayed natively.",
+    "np.linalg.cholesky / inv, scipy.linalg.block_diag, scipy.sparse.csc_matrix (+splu): real routines on concrete matrices after "
+    "normalising all-concrete object arrays to float64; symbolic arguments raise Unsupported (harness error, never a verdict).",
+    "np.allclose on symbolic values: decision-margin version (inside tol/2 or outside 2*tol assumed).",
+    "autoconf conf switch general/inversion/check_reconstruction: set per case by a stand-in object around inversion_util.conf (also during replay).",
+    "concrete linear objects (mappers, function lists) and the Convolver are constructed natively (facades passing through): they do not depend on a symbolic input.",
+]
+ASSUMPTIONS = [
+    "'computed from an identical dataset and linear objects' is realised by a second, separately constructed dataset + linear objects "
+    "built from the same inputs (the donor inversion); the k inversions of a sequence share dataset, linear objects and Preloads object",
+    "the reference is the repository's own inversion with the preloads argument omitted (the property is a relation between two runs of the code)",
+]
 EXPLORER_OPTS = {"timeout_ms": 6000, "max_paths": 2000, "max_decisions": 4000}
 BUDGET_S = {"quick": 900, "thorough": 2300}
 
